@@ -105,6 +105,17 @@ Failed(c, o) == {n \in Range(LawNames) : ~Law(n, c, o)}
 \* how the result deviates (for narrow violation signatures)
 Extra(c, o) == Range(o.after) \ (Range(o.before) \cup ExpectedAdded(c))
 Missing(c, o) == (Range(o.before) \cup ExpectedAdded(c)) \ Range(o.after)
+\* what kind of path deviates
+Role(c, p) == IF p \notin Items THEN "unknown-path"
+              ELSE IF p \in Named(c) THEN "named"
+              ELSE IF \E a \in Named(c) : p \in Anc(a) THEN "parent-of-named"
+              ELSE IF Ctl(p) THEN "control-dir"
+              ELSE IF p \in Helpers(c) THEN "conflict-helper"
+              ELSE IF IsDir(p) /\ Nested(c, p) THEN "nested-tree"
+              ELSE IF Par(p) # "" /\ Nested(c, Par(p)) THEN "in-nested-tree"
+              ELSE IF Ignored(c, p) THEN "ignored"
+              ELSE IF Par(p) # "" /\ Ignored(c, Par(p)) THEN "in-ignored-dir"
+              ELSE IF p \in c.pre THEN "versioned" ELSE "plain"
 \* the harness set the case up as specified (conformance)
 SetupOK(c, o) == Range(o.before) = c.pre
 =============================================================================
